@@ -416,6 +416,49 @@ func TestVerif_Probes(t *testing.T) {
 		}
 		r.Case(vkit.NewHash().Str("gc-resurrect").Int(int64(round)).Sum(), reached)
 	}
+	// statedb.Observable registers its change iterator in a write transaction of its own: whenever its context ends - before
+	// Observe is called, while it queues behind a writer, or later - the table must be lockable afterwards
+	for variant := 0; variant < 3 && r.Violations() < 3; variant++ {
+		db := statedb.New()
+		tabs := concw.NewTables(db, fmt.Sprintf("o%d-", variant), 1)
+		ctx, cancel := context.WithCancel(context.Background())
+		completed := make(chan struct{})
+		obs := statedb.Observable[*concw.Row](db, tabs[0])
+		switch variant {
+		case 0: // context already ended
+			cancel()
+			obs.Observe(ctx, func(statedb.Change[*concw.Row]) {}, func(error) { close(completed) })
+		case 1: // context ends while Observe queues behind a writer
+			w := db.WriteTxn(tabs[0])
+			obs.Observe(ctx, func(statedb.Change[*concw.Row]) {}, func(error) { close(completed) })
+			time.Sleep(20 * time.Millisecond)
+			cancel()
+			time.Sleep(5 * time.Millisecond)
+			w.Commit()
+		default: // ordinary use: observe, change, cancel
+			obs.Observe(ctx, func(statedb.Change[*concw.Row]) {}, func(error) { close(completed) })
+			w := db.WriteTxn(tabs[0])
+			tabs[0].Insert(w, &concw.Row{ID: "x"})
+			w.Commit()
+			time.Sleep(10 * time.Millisecond)
+			cancel()
+		}
+		select {
+		case <-completed:
+		case <-time.After(10 * time.Second):
+			r.Violation("observable-never-completes", variant, map[string]any{"message": fmt.Sprintf("variant %d: Observe never called complete after its context ended", variant)})
+		}
+		if !within(10*time.Second, func() {
+			w := db.WriteTxn(tabs[0])
+			tabs[0].Insert(w, &concw.Row{ID: "probe"})
+			w.Abort()
+		}) {
+			r.Violation("blocked-after-observe", variant, map[string]any{"message": fmt.Sprintf("variant %d: after an Observable's context ended a WriteTxn on its table is never granted: Observe left its write transaction open", variant)})
+		}
+		cancel()
+		r.Count("observable_probes", 1)
+		r.Case(vkit.NewHash().Str("observable").Int(int64(variant)).Sum(), true)
+	}
 	// statedb.Derive opens a write transaction on the output table for every batch of changes: stopping the job while it is idle or
 	// in the middle of a batch must leave both tables lockable
 	for variant := 0; variant < 4 && r.Violations() < 3; variant++ {
